@@ -62,6 +62,11 @@ package codec
 //@   ensures [long-inflate-rejected] called(probe) && res(probe, 0) > 0 ==> err != nil
 //@   ensures [exact-inflate-is-the-payload] called(fin) ==> ref(decompressed) == ref(arg(fill, 1)) && len(decompressed) == claimedUncompressedSize && err == res(fin)
 
+// Compression is on exactly for thresholds >= 0 (0 = compress everything, -1 = off), as on the encoder side.
+//@ func (*Decoder).SetCompressionThreshold
+//@   props C01 C02
+//@   ensures [on-iff-threshold-nonnegative] d.compressionThreshold == threshold && d.compression == (threshold >= 0)
+
 // Empty frames are skipped at most 11 times.
 //@ func (*Decoder).readPacket
 //@   props C02
